@@ -141,10 +141,17 @@ Definition ent (i : inst) (e : nat) : ptr := get_ent (i_st i) e.
 Definition ver (i : inst) (e : nat) : nat := default O (i_ver i !! e).
 Definition put_ent (i : inst) (e : nat) (p : ptr) : inst :=
   Inst (set_ent (i_st i) e p) (i_mu i) (<[e := S (ver i e)]> (i_ver i)).
-(* does CompareAndSwapPointer(&e.p, f_p, _) succeed? *)
+(* does CompareAndSwapPointer(&e.p, f_p, _) succeed?
+   Convention: the value 0 stands for a ZERO-SIZE value (sync2.Set stores
+   struct{}{}): Go gives every zero-size object the same address
+   (runtime.zerobase), so pointers to such values are all identical and a
+   compare-and-swap from one of them succeeds whenever the entry currently
+   holds a value, even if it was deleted and re-added in between. For every
+   other value the pointer identity (write counter) decides. The harnesses use
+   0 only for the set's unit value. *)
 Definition cas_ok (i : inst) (e : nat) (f : frame) : bool :=
   match f_p f with
-  | PVal _ => bool_decide (ent i e = f_p f) && Nat.eqb (ver i e) (f_pver f)
+  | PVal v => bool_decide (ent i e = f_p f) && ((v =? 0) || Nat.eqb (ver i e) (f_pver f))
   | p => bool_decide (ent i e = p)
   end.
 Definition st_with_misses (s : mstate) (m : Z) : mstate :=
